@@ -6,6 +6,7 @@
 mod conv;
 mod r#gen;
 mod lin;
+mod bounds;
 
 use serde_json::Value;
 use std::io::{BufRead, Write};
@@ -54,6 +55,29 @@ fn main() {
                 let model = conv::model_from_case(c);
                 let ev = lin::lin_event(&id, model);
                 writeln!(out, "{}", ev).unwrap();
+            }
+        }
+        // bounds --cases F | --random N --seed S : hook H1 events for C07 (b)/(c)
+        "bounds" => {
+            let mut cases = vec![];
+            if let Some(p) = arg(&args, "--cases") {
+                cases.extend(read_cases(&p));
+            }
+            if let Some(n) = arg(&args, "--random") {
+                let n: usize = n.parse().unwrap();
+                let seed: u64 = arg(&args, "--seed").map(|s| s.parse().unwrap()).unwrap_or(0);
+                let depth: u32 = arg(&args, "--depth").map(|s| s.parse().unwrap()).unwrap_or(2);
+                let mut g = r#gen::G::new(seed ^ 0xb0);
+                for i in 0..n {
+                    cases.push(g.model(format!("rb{seed}_{i}"), depth, 3, 4));
+                }
+            }
+            for c in &cases {
+                let mut evs = vec![];
+                bounds::bounds_events(c, &mut evs);
+                for ev in evs {
+                    writeln!(out, "{}", ev).unwrap();
+                }
             }
         }
         _ => {
